@@ -268,6 +268,129 @@ func runC11(c *Ctx) {
 	}
 	c.Floor(r2, 2)
 
+	// MayContain answers from the first-byte bucket of an index: true for every hash that shares its first byte with
+	// some object of the pack. A true answer may only lead to the precise lookup; concluding anything else from it
+	// (here: 'already reported') misjudges almost every hash once the pack has a few hundred objects.
+	const r4 = "may-contain-confirmed"
+	n4 := 0
+	for _, sp := range []string{"storage/filesystem", "plumbing/format/packfile"} {
+		spk := p.Pkg(sp)
+		if spk == nil {
+			continue
+		}
+		sinfo := spk.TypesInfo
+		isMay := func(call *ast.CallExpr) bool {
+			fn := Callee(sinfo, call)
+			return fn != nil && fn.Name() == "MayContain"
+		}
+		isPrecise := func(call *ast.CallExpr) bool {
+			fn := Callee(sinfo, call)
+			if fn == nil {
+				return false
+			}
+			switch fn.Name() {
+			case "FindOffset", "Contains", "FindCRC32", "FindHash", "getFromPackfileAt", "getFromPackfile":
+				return true
+			}
+			return false
+		}
+		for _, fi := range p.FuncsIn(sp) {
+			if fi.Decl.Body == nil || p.isTestFile(fi.Decl.Pos()) || nodeHasCall(fi.Decl.Body, false, isMay) == nil {
+				continue
+			}
+			if fi.Decl.Name.Name == "MayContain" {
+				continue // an index delegating to another index's MayContain
+			}
+			f := p.FlowOf(fi)
+			k := 0
+			for _, b := range f.G.Blocks {
+				if !b.Live || len(b.Succs) != 2 || len(b.Nodes) == 0 {
+					continue
+				}
+				cond, ok := b.Nodes[len(b.Nodes)-1].(ast.Expr)
+				if !ok || nodeHasCall(cond, false, isMay) == nil {
+					continue
+				}
+				for i := 0; i < 2; i++ {
+					mayTrue := false
+					for _, fact := range f.EdgeFacts(b, i) {
+						if call, ok := unparen(fact.Atom).(*ast.CallExpr); ok && isMay(call) && fact.Truth {
+							mayTrue = true
+						}
+					}
+					if !mayTrue {
+						continue
+					}
+					k++
+					n4++
+					c.Analysed(fi)
+					cb := b
+					h := f.Search(SearchOpts{Starts: []Loc{{b.Succs[i], 0}}, Sink: func(nd ast.Node) bool { _, isRet := nd.(*ast.ReturnStmt); return isRet },
+						Barrier: CallNode(false, isPrecise), BlockSink: func(x *cfg.Block) bool { return x == cb }})
+					c.Check(h == nil, r4, fi.Name()+":MayContain#"+itoa(k), cond.Pos(), orStr(ifStr(h != nil, "on the edge where MayContain answered true the function goes on to the next element (or returns) without the precise lookup: a bucket-level 'maybe' is taken for 'contains'"),
+						"a true answer only leads to the precise lookup"))
+				}
+			}
+		}
+	}
+	c.Floor(r4, 2)
+
+	// findInAlternates fans a lookup out over the alternates and collects the first hit in a variable set by a worker.
+	// A return with a nil error that is not the direct result of the lookup function must be reachable only where the
+	// 'found' flag is known to be true; otherwise a lookup that misses everywhere answers (zero value, nil) — an object
+	// that exists nowhere is reported as present, its size as 0.
+	const r5 = "alternates-miss-is-not-found"
+	if fi := c.MustFunc(r5, "storage/filesystem.findInAlternates"); fi != nil {
+		info := fi.Pkg.TypesInfo
+		c.Analysed(fi)
+		f := p.FlowOf(fi)
+		// the flag: a bool variable assigned true inside a function literal
+		var flag types.Object
+		ast.Inspect(fi.Decl.Body, func(n ast.Node) bool {
+			fl, ok := n.(*ast.FuncLit)
+			if !ok {
+				return true
+			}
+			ast.Inspect(fl.Body, func(m ast.Node) bool {
+				if as, ok := m.(*ast.AssignStmt); ok && len(as.Lhs) == 1 && len(as.Rhs) == 1 {
+					if tv := info.Types[as.Rhs[0]]; tv.Value != nil && tv.Value.String() == "true" {
+						if o := objOf(info, as.Lhs[0]); o != nil && isBoolType(o.Type()) && !(o.Pos() >= fl.Pos() && o.Pos() <= fl.End()) {
+							flag = o
+						}
+					}
+				}
+				return true
+			})
+			return true
+		})
+		k := 0
+		for _, loc := range f.Locs(func(nd ast.Node) bool { _, ok := nd.(*ast.ReturnStmt); return ok }) {
+			ret := loc.B.Nodes[loc.Idx].(*ast.ReturnStmt)
+			if len(ret.Results) == 1 {
+				// return fn(alt): the lookup's own answer
+				k++
+				_, isCall := unparen(ret.Results[0]).(*ast.CallExpr)
+				c.Check(isCall, r5, fi.Name()+":return#"+itoa(k), ret.Pos(), orStr(ifStr(!isCall, "a single multi-valued result that is not a call"), "the lookup's own answer is passed on"))
+				continue
+			}
+			if len(ret.Results) != 2 || !isNil(info, ret.Results[1]) {
+				continue
+			}
+			k++
+			if flag == nil {
+				c.Violate(r5, fi.Name()+":return#"+itoa(k), ret.Pos(), "a value is returned with a nil error and there is no flag recording that a worker found it")
+				continue
+			}
+			guard := FactGuard(func(_ *Flow, fact Fact) bool {
+				return objOf(info, fact.Atom) == flag && fact.Truth
+			})
+			h := f.UnguardedPath(guard, loc)
+			c.Check(h == nil, r5, fi.Name()+":return#"+itoa(k), ret.Pos(), orStr(ifStr(h != nil, "the collected value is returned with a nil error on a path where `"+flag.Name()+"` is not known to be true: a lookup that misses in every alternate answers (zero value, nil) — HasEncodedObject reports a missing object as present, EncodedObjectSize returns 0"),
+				"returned with a nil error only where `"+flag.Name()+"` is true"))
+		}
+	}
+	c.Floor(r5, 2)
+
 	const r3 = "reader-bounded-by-size"
 	if fi := c.MustFunc(r3, "plumbing/format/packfile.(*FSObject).Reader"); fi != nil {
 		info := fi.Pkg.TypesInfo
